@@ -201,13 +201,56 @@ func minInt(a, b int) int {
 // pick x in [N, P) on the curve, r = x - N, any s and e, Q = r^-1 (sR - eG).
 func (h *H) highXSig() (qx, qy, r, s string, hash []byte, ok bool) {
 	pmn := new(big.Int).Sub(curveP, curveN)
+	h.hxCount++
+	mode := 2
+	if h.hxCount%6 < 2 {
+		mode = h.hxCount % 6
+	}
+	pj, style := uint(0), 0
+	if mode == 2 {
+		pj, style = uint(h.hxLimb%5), (h.hxLimb/5)%2
+		h.hxLimb++
+	}
+	limbOf := func(v *big.Int, j uint) int64 {
+		return new(big.Int).And(new(big.Int).Rsh(v, 26*j), big.NewInt(1<<26-1)).Int64()
+	}
 	for tries := 0; tries < 400; tries++ {
 		off := new(big.Int).SetBytes(h.randBytes(15))
-		if h.rng.Intn(2) == 0 {
+		if mode == 1 {
 			// r just below p-n: p-n-2^k+delta, exercising every limb of the r < p-n comparison
 			k := uint(1 + h.rng.Intn(126))
 			off = new(big.Int).Sub(pmn, new(big.Int).Lsh(big.NewInt(1), k))
 			off.Add(off, new(big.Int).SetBytes(h.randBytes(int(k/8)+1)).Rsh(new(big.Int).SetBytes(h.randBytes(int(k/8)+1)), 9))
+			if off.Sign() <= 0 || off.Cmp(pmn) >= 0 {
+				continue
+			}
+		}
+		if mode == 2 {
+			// r = p-n with ONE 26-bit limb (pj, walked round-robin) lowered and every lower limb raised above the
+			// corresponding limb of p-n (style 0: maximal, style 1: by a little): r < p-n, yet a limb-wise comparison
+			// that drops, repeats or mis-orders a limb sees it as >= p-n
+			j := pj
+			limb := limbOf(pmn, j)
+			if limb == 0 {
+				j = 4
+				limb = limbOf(pmn, j)
+			}
+			nl := limb - 1 - int64(h.rng.Intn(3))
+			if nl < 0 {
+				nl = 0
+			}
+			off = new(big.Int).Rsh(pmn, 26*(j+1))
+			off.Lsh(off, 26).Or(off, big.NewInt(nl)).Lsh(off, 26*j)
+			for i := uint(0); i < j; i++ {
+				w := int64(1<<26 - 1)
+				if style == 1 {
+					w = limbOf(pmn, i) + 1 + int64(h.rng.Intn(4))
+					if w > 1<<26-1 {
+						w = 1<<26 - 1
+					}
+				}
+				off.Or(off, new(big.Int).Lsh(big.NewInt(w), 26*i))
+			}
 			if off.Sign() <= 0 || off.Cmp(pmn) >= 0 {
 				continue
 			}
@@ -220,17 +263,36 @@ func (h *H) highXSig() (qx, qy, r, s string, hash []byte, ok bool) {
 		if ri.Sign() == 0 {
 			continue
 		}
+		// the key is built WITHOUT the routines under test (no RecoverPublicKey, no r < p-n comparison):
+		// R = (x, sqrt(x^3+7)) by math/big, Q = (-e/r)*G + (s/r)*R by the scalar multiplication routines
+		y2 := new(big.Int).Exp(x, big.NewInt(3), curveP)
+		y2.Add(y2, big.NewInt(7)).Mod(y2, curveP)
+		y := new(big.Int).ModSqrt(y2, curveP)
+		if y == nil {
+			continue
+		}
+		if h.rng.Intn(2) == 0 {
+			y.Sub(curveP, y)
+		}
 		hash = h.randBytes(32)
 		si := h.randKeyInt()
-		for v := 2; v <= 3; v++ {
-			sig := secp.NewSignatureWithRecoveryCode(scalarFromHex(hx(be32(ri))), scalarFromHex(hx(be32(si))), byte(v))
-			pk, err := sig.RecoverPublicKey(hash)
-			if err != nil {
-				continue
-			}
-			u := pk.SerializeUncompressed()
-			return hx(u[1:33]), hx(u[33:65]), hx(be32(ri)), hx(be32(si)), hash, true
+		e := new(big.Int).Mod(new(big.Int).SetBytes(hash), curveN)
+		rinv := new(big.Int).ModInverse(ri, curveN)
+		u1 := new(big.Int).Mul(e, rinv)
+		u1.Neg(u1).Mod(u1, curveN)
+		u2 := new(big.Int).Mul(si, rinv)
+		u2.Mod(u2, curveN)
+		var R, p1, p2, q secp.JacobianPoint
+		R = secp.MakeJacobianPoint(fvFromHex(hx(be32(x))), fvFromHex(hx(be32(y))), fvFromHex("01"))
+		secp.ScalarBaseMultNonConst(scalarFromHex(hx(be32(u1))), &p1)
+		secp.ScalarMultNonConst(scalarFromHex(hx(be32(u2))), &R, &p2)
+		secp.AddNonConst(&p1, &p2, &q)
+		if (q.X.IsZero() && q.Y.IsZero()) || q.Z.IsZero() {
+			continue
 		}
+		q.ToAffine()
+		u := secp.NewPublicKey(&q.X, &q.Y).SerializeUncompressed()
+		return hx(u[1:33]), hx(u[33:65]), hx(be32(ri)), hx(be32(si)), hash, true
 	}
 	return "", "", "", "", nil, false
 }
@@ -279,7 +341,7 @@ func genC02(h *H) {
 		h.do("identity-point", "verify", hx(be32(e)), qx, qy, rs, ss)
 	}
 	// nonce x >= N constructed by key recovery; plus its near misses (r+1, guard boundary)
-	for i := 0; i < 12*h.budget; i++ {
+	for i := 0; i < 18*h.budget; i++ {
 		qx, qy, r, s, hash, ok := h.highXSig()
 		if !ok {
 			continue
@@ -359,12 +421,15 @@ func genC07(h *H) {
 			h.do("overflow-boundary", "recover", hx(h.randBytes(32)), hx(be32(new(big.Int).Add(pmn, big.NewInt(dlt)))), hx(be32(h.randKeyInt())), strconv.Itoa(c))
 		}
 	}
-	for i := 0; i < 4*h.budget; i++ {
+	for i := 0; i < 16*h.budget; i++ {
 		_, _, r, s, hash, ok := h.highXSig()
 		if ok {
 			nsv := hx(be32(new(big.Int).Sub(curveN, new(big.Int).SetBytes(unhx(s)))))
 			for c := 0; c < 4; c++ {
 				h.do("overflow-bit", "recover", hx(hash), r, s, strconv.Itoa(c))
+				if i >= 4*h.budget {
+					continue // the remaining rounds only walk the limb patterns of r near p-n
+				}
 				// the exported forms of the high-s twin must recover the same key as the object
 				for _, sv := range []string{s, nsv} {
 					sig := secp.NewSignatureWithRecoveryCode(scalarFromHex(r), scalarFromHex(sv), byte(c))
